@@ -808,16 +808,18 @@ theorem canAttach_true {t : T} {c : Change} {b : Bool} {r : Bool} {w : List (Nat
   simp only at h
   split at h
   · simp at h
-  · rename_i hm
-    split at h
+  · split at h
     · simp at h
-    · rename_i hs
-      refine ⟨?_, by simpa using hs⟩
-      intro p hp
-      have hm' : (c.prevs.filter (fun p => !t.has p)) = [] := by simpa using hm
-      rw [List.filter_eq_nil_iff] at hm'
-      have := hm' p hp
-      simpa using this
+    · rename_i hm
+      split at h
+      · simp at h
+      · rename_i hs
+        refine ⟨?_, by simpa using hs⟩
+        intro p hp
+        have hm' : (c.prevs.filter (fun p => !t.has p)) = [] := by simpa using hm
+        rw [List.filter_eq_nil_iff] at hm'
+        have := hm' p hp
+        simpa using this
 
 /-- the first step of `attach`: append `c` -/
 theorem inv_push {batch : List Change} {t : T} {c : Change} (hi : Inv batch t) (hc : c ∈ batch)
@@ -1367,30 +1369,32 @@ theorem attach_direct (f : Nat) (t : T) (c : Change) (hun : t.unatt = []) :
   simp only
   refine ⟨(congrArg T.att h).trans rfl, (congrArg T.unatt h).trans (by simp [hun]), (congrArg T.root h).trans rfl⟩
 
-theorem canAttach_ok {t : T} {c : Change} (hp : ∀ p ∈ c.prevs, t.has p = true) (hs : t.has c.snap = true) :
-    canAttach t c true = (true, false, []) := by
+theorem canAttach_ok {t : T} {c : Change} (hne : c.prevs ≠ []) (hp : ∀ p ∈ c.prevs, t.has p = true)
+    (hs : t.has c.snap = true) : canAttach t c true = (true, false, []) := by
   unfold canAttach
   have : c.prevs.filter (fun p => !t.has p) = [] := by
     rw [List.filter_eq_nil_iff]; intro p hpm; simp [hp p hpm]
-  simp [this, hs]
+  have hne' : c.prevs.isEmpty = false := by simpa using hne
+  simp [this, hs, hne']
 
 /-- one change whose previous ids and snapshot are attached, arriving at a tree with nothing unattached -/
 theorem addOne_direct (t : T) (c : Change) (hun : t.unatt = []) (hroot : t.root.isSome = true)
-    (hp : ∀ p ∈ c.prevs, t.has p = true) (hs : t.has c.snap = true) :
+    (hne : c.prevs ≠ []) (hp : ∀ p ∈ c.prevs, t.has p = true) (hs : t.has c.snap = true) :
     (addOne t c).att = t.att ++ [c] ∧ (addOne t c).unatt = [] ∧ (addOne t c).root = t.root := by
   unfold addOne
   split
   · rename_i h; rw [h] at hroot; simp at hroot
-  · rw [canAttach_ok hp hs]
+  · rw [canAttach_ok hne hp hs]
     simp only
     rw [hun]
     exact attach_direct 0 t c hun
 
-/-- "held or earlier": every previous id and the snapshot of each element is attached in `t` or is the id of
-an earlier element -/
+/-- "held or earlier": every element not yet attached has previous ids (only the root has none), and each previous
+id as well as the snapshot is attached in `t` or is the id of an earlier element -/
 def CausalFor (t : T) (l : List Change) : Prop :=
   ∀ l1 c l2, l = l1 ++ c :: l2 →
-    (∀ p ∈ c.prevs, t.has p = true ∨ p ∈ l1.map (·.id)) ∧ (t.has c.snap = true ∨ c.snap ∈ l1.map (·.id))
+    (∀ p ∈ c.prevs, t.has p = true ∨ p ∈ l1.map (·.id)) ∧ (t.has c.snap = true ∨ c.snap ∈ l1.map (·.id)) ∧
+    (c.prevs ≠ [] ∨ t.has c.id = true)
 
 /-- **causal arrival**: a causally ordered run of changes is attached completely and directly (the wait list is
 never used); the result is the old attachment list followed by the changes not yet attached, in order -/
@@ -1420,10 +1424,14 @@ theorem addAll_causal : ∀ (l : List Change) (t : T), t.unatt = [] → t.root.i
           · exact h
           · simp at h
         have hs : t.has c.snap = true := by
-          rcases hc0.2 with h | h
+          rcases hc0.2.1 with h | h
           · exact h
           · simp at h
-        obtain ⟨a1, a2, a3⟩ := addOne_direct t c hun hroot hp hs
+        have hne : c.prevs ≠ [] := by
+          rcases hc0.2.2 with h | h
+          · exact h
+          · rw [h] at hhf; exact Bool.noConfusion hhf
+        obtain ⟨a1, a2, a3⟩ := addOne_direct t c hun hroot hne hp hs
         refine ⟨addOne t c, by simp [hhf, hunf], a2, a3, ?_, ?_, ?_, ?_⟩
         · intro x hx; rw [has_iff] at hx ⊢; rw [a1]; simp only [List.map_append, List.mem_append]; exact Or.inl hx
         · rw [has_iff, a1]; simp
@@ -1451,7 +1459,8 @@ theorem addAll_causal : ∀ (l : List Change) (t : T), t.unatt = [] → t.root.i
         · rcases List.mem_cons.mp h with e | e
           · left; rw [e]; exact hc'
           · exact Or.inr e
-      · rcases this.2 with h | h
+      refine ⟨?_, this.2.2.imp id (fun h => m' _ h)⟩
+      · rcases this.2.1 with h | h
         · exact Or.inl (m' _ h)
         · rcases List.mem_cons.mp h with e | e
           · left; rw [e]; exact hc'
@@ -1520,7 +1529,8 @@ theorem addSeq_causal : ∀ (L : List (List Change)) (t : T), t.unatt = [] → t
           · obtain ⟨q, hq, hqp⟩ := List.mem_map.mp h
             left; rw [hhas, ← hqp]; exact a4 q hq
           · exact Or.inr h
-      · rcases this.2 with h | h
+      refine ⟨?_, this.2.2.imp id (fun h => by rw [hhas]; exact a3 _ h)⟩
+      · rcases this.2.1 with h | h
         · left; rw [hhas]; exact a3 _ h
         · rw [List.map_append, List.mem_append] at h
           rcases h with h | h
